@@ -9,9 +9,16 @@ pub struct StepToI64Iterator {
 
 impl StepToI64Iterator {
     pub fn new(start: i64, target: i64, step_by: i64) -> Self {
-        let steps_to_target = (target - start).abs() / step_by;
-        let step_by = if target < start { -step_by } else { step_by };
-        let target = start + step_by * steps_to_target;
+        // The distance between start and target can be larger than i64::MAX
+        let distance = (target as i128 - start as i128).abs();
+        let steps_to_target = (distance / step_by as i128).min(i64::MAX as i128) as i64;
+        let step_by = if target < start {
+            step_by.wrapping_neg()
+        } else {
+            step_by
+        };
+        // The yielded values are between start and target, intermediate results can wrap around
+        let target = start.wrapping_add(step_by.wrapping_mul(steps_to_target));
 
         Self {
             target,
@@ -33,7 +40,7 @@ impl KotoIterator for StepToI64Iterator {
     fn next_back(&mut self) -> Option<KIteratorOutput> {
         if self.steps_to_target >= 0 {
             let result = self.target;
-            self.target -= self.step_by;
+            self.target = self.target.wrapping_sub(self.step_by);
             self.steps_to_target -= 1;
             Some(KIteratorOutput::Value(result.into()))
         } else {
@@ -47,7 +54,9 @@ impl Iterator for StepToI64Iterator {
 
     fn next(&mut self) -> Option<Self::Item> {
         if self.steps_to_target >= 0 {
-            let result = self.target - self.step_by * self.steps_to_target;
+            let result = self
+                .target
+                .wrapping_sub(self.step_by.wrapping_mul(self.steps_to_target));
             self.steps_to_target -= 1;
             Some(KIteratorOutput::Value(result.into()))
         } else {
@@ -56,7 +65,7 @@ impl Iterator for StepToI64Iterator {
     }
 
     fn size_hint(&self) -> (usize, Option<usize>) {
-        let hint = (self.steps_to_target + 1) as usize;
+        let hint = (self.steps_to_target as usize).saturating_add(1);
         (hint, Some(hint))
     }
 }
